@@ -196,32 +196,32 @@ def kani_playback(ov, harness_full, hfile, features=None, tname=None, timeout=90
     sh = f'ulimit -v 14000000; exec timeout -k 10 {timeout} ' + ' '.join(map(_q, cmd))
     p = subprocess.run(['bash', '-c', sh], cwd=ov.crate, env=ENV, capture_output=True, text=True)
     out = p.stdout + '\n' + p.stderr
-    m = re.search(r'```\s*\n(.*?)```', out, flags=re.S)
-    if not m:
+    blocks = re.findall(r'```\s*\n(.*?)```', out, flags=re.S)
+    blocks = [b for b in blocks if 'fn kani_concrete_playback_' in b]
+    if not blocks:
         return None, '', out
-    test_src = m.group(1)
-    tm = re.search(r'fn (kani_concrete_playback_\w+)', test_src)
-    if not tm:
-        return None, test_src, out
-    tname_fn = tm.group(1)
+    # Kani prints one unit test per failed check and per satisfied cover; inject them all and run them all:
+    # the counterexample reproduces natively iff at least one of them fails
+    test_src = '\n'.join(blocks)
     path = ov.harness_files[hfile]
     with open(path, 'a') as f:
         f.write('\n' + test_src + '\n')
     cmd = ['cargo', 'kani', 'playback', '-Z', 'concrete-playback']
     if features:
         cmd += ['--features', features]
-    cmd += ['--', tname_fn]
+    cmd += ['--', 'kani_concrete_playback_' + short]
     env = dict(ENV)
     env['CARGO_TARGET_DIR'] = tdir
     p2 = subprocess.run(['bash', '-c', f'exec timeout -k 10 {timeout} ' + ' '.join(map(_q, cmd))], cwd=ov.crate, env=env,
                         capture_output=True, text=True)
     out2 = p2.stdout + '\n' + p2.stderr
+    out2 = '\n'.join(l[:400] for l in out2.split('\n'))
     ran = re.search(r'test result: (\w+)\. (\d+) passed; (\d+) failed', out2)
     if not ran:
         return None, test_src, out + '\n----playback----\n' + out2
-    reproduced = int(ran.group(3)) > 0
     if int(ran.group(2)) + int(ran.group(3)) == 0:
         return None, test_src, out + '\n----playback----\n' + out2
+    reproduced = int(ran.group(3)) > 0
     return reproduced, test_src, out + '\n----playback----\n' + out2
 
 
